@@ -60,6 +60,33 @@ def _plain(node: ast.AST) -> str:
     return ast.dump(node, annotate_fields=False, include_attributes=False)
 
 
+def _dataclass_fields(tree: ast.Module) -> dict:
+    """class name -> init fields in order, for classes decorated with @dataclass whose body declares them by annotation only"""
+    out = {}
+    for s in tree.body:
+        if isinstance(s, ast.ClassDef) and any((getattr(d, "id", None) or getattr(getattr(d, "func", None), "id", None) or getattr(d, "attr", None) or getattr(getattr(d, "func", None), "attr", None)) == "dataclass" for d in s.decorator_list):
+            fields = []
+            okc = not s.bases or all(isinstance(b, ast.Name) and b.id in ("Gate", "Protocol", "object") for b in s.bases)
+            for sub in s.body:
+                if isinstance(sub, ast.AnnAssign) and isinstance(sub.target, ast.Name):
+                    if isinstance(sub.value, ast.Call) and any(k.arg == "init" for k in sub.value.keywords):
+                        okc = False
+                    fields.append(sub.target.id)
+            if okc and fields and not any(isinstance(sub, ast.FunctionDef) and sub.name == "__init__" for sub in s.body):
+                out[s.name] = fields
+    return out
+
+
+def _with_class(qual: str, live_fields: dict, ref_fields: dict):
+    from .canon import set_self_class
+
+    cname = qual.split(".")[0] if "." in qual else None
+    if cname and cname in live_fields and live_fields.get(cname) == ref_fields.get(cname, live_fields.get(cname)):
+        set_self_class((cname, live_fields[cname]))
+    else:
+        set_self_class(None)
+
+
 def substitute_equivalents(live: ast.Module, modname: str, is_pkg: bool) -> List[str]:
     """Replace, in ``live``, every function that is canonically equal to (but textually different from)
     its reference version by the reference version. Returns the qualnames substituted."""
@@ -80,9 +107,14 @@ def substitute_equivalents(live: ast.Module, modname: str, is_pkg: bool) -> List
         if _plain(L.args.defaults) != _plain(R.args.defaults) if False else ([_plain(x) for x in L.args.defaults] != [_plain(x) for x in R.args.defaults]):
             continue
         try:
+            _with_class(qual, _dataclass_fields(live), _dataclass_fields(ref))
             same = canonical_dump(L) == canonical_dump(R)
         except Exception:
             same = False
+        finally:
+            from .canon import set_self_class
+
+            set_self_class(None)
         if same:
             new = copy.deepcopy(R)
             # keep the live position for messages
@@ -115,9 +147,14 @@ def canonical_view(live: ast.Module, modname: str, is_pkg: bool) -> List[str]:
             if _plain(L) == _plain(rbody[ri]):
                 continue
         try:
+            _with_class(qual, _dataclass_fields(live), _dataclass_fields(ref) if ref is not None else {})
             new = canonical_function(L, rename=False)
         except Exception:
             continue
+        finally:
+            from .canon import set_self_class
+
+            set_self_class(None)
         new.decorator_list = L.decorator_list
         new.args = L.args
         new.returns = L.returns
